@@ -13,6 +13,7 @@ the interner returns) is proved over the interner model of XrayModel/Lex.lean in
 import XrayProofs.Scope
 import XrayProofs.Closure
 import XrayModel.ScopeRun
+import XrayProofs.CompileSim
 namespace XrayModel.C03
 open XrayModel.Scope XrayModel.Core XrayModel.ScopeRun
 
@@ -176,11 +177,11 @@ theorem forward_gate_transitive (ps : List Scope) (cur cur' : Scope) (c : Cand) 
 /-- the gate on closed programs (the model runs): a forward function taken as a value, called, or used by a
 lambda before its definition is `MissingForwardImplementation`; after the definition it is allowed -/
 example : errOf (compileProgram 50 [.fwdD "g", .letD "h" (.ident "g")]) = some (.missingForward "g") := by decide
-example : errOf (compileProgram 50 [.fwdD "g", .letD "r" (.call (.ident "g") [.lit])]) = some (.missingForward "g") := by decide
+example : errOf (compileProgram 50 [.fwdD "g", .letD "r" (.call (.ident "g") [.lit (.int 0)])]) = some (.missingForward "g") := by decide
 example : errOf (compileProgram 50 [.fwdD "g", .letD "k" (.lam (.mk [.mk "x" none] [] (.call (.ident "g") [.ident "x"])))])
     = some (.missingForward "g") := by decide
 example : errOf (compileProgram 50 [.fwdD "a", .fwdD "b", .fnD "a" (.mk [.mk "x" none] [] (.call (.ident "b") [.ident "x"])),
-    .letD "r" (.call (.ident "a") [.lit])]) = some (.missingForward "b") := by decide
+    .letD "r" (.call (.ident "a") [.lit (.int 0)])]) = some (.missingForward "b") := by decide
 example : errOf (compileProgram 50 [.fwdD "g", .fnD "g" (.mk [.mk "x" none] [] (.ident "x")), .letD "h" (.ident "g")]) = none := by decide
 
 /-- a lambda is gated where it is written -/
@@ -296,5 +297,40 @@ theorem closure_body_env (fuel : Nat) (cfg : Cfg) (h : Nat) (f : Func) (ds : Lis
            else tramp fuel cfg h (.clos f ds env) newArgs (r + 1) st''
          | r' => r') :=
   tramp_frame fuel cfg h f ds env args r st ps hb hd
+
+/-! ## compile_correct: the compiled cell program against the named evaluator
+
+FULL STATEMENT (not proved; `compile_correct`): for every core program `ds : List Core.Decl`
+  (forward declarations do not exist in Core.lean; lambdas without optional parameters — a lambda is created, and
+   its defaults evaluated, when the enclosing scope is entered, see the finding `c03:lam-hoist:wrong-output`, so
+   with such defaults the statement is false; a computed callee `callE` is not a bare variable — that is `call`),
+  `compileProgram cf (ofDecls ds) = .ok root →`
+  for all `fuel` with `Core.runProgram fuel cfg ds ≠ oof` there is `fuel'` such that `runRoot fuel' cfg root` has the
+  same outcome (bindings of the `let`s related by the value relation "same first-order value / a function value on
+  both sides", violations by kind, the same output lines and the same number of counted calls), and conversely.
+What it needs beyond what is proved: a value relation between named closures (code + default values + captured
+environment) and cell closures (template + cells resolved by `from_spec`), and the simulation of `mkClos`/`mkTemplate`,
+`callUser`/`tramp`/`fromTemplate`/`runDecls` under it — i.e. that the cells `capture_threading` and
+`use_reads_nearest` speak about are filled with the values of the named environment (the structural theorems give
+the addresses, this would give the contents), with a fuel-existential statement because hoisted lambda
+declarations and parameter declarations spend fuel the named evaluator does not.
+
+PROVED (`compile_correct_partial`): the function-free fragment — no function declarations, no lambdas, no computed
+callees; variables (with shadowing), literals, tuples, arrays, item access, calls of bound non-function values, the
+strict natives and `display` (the short-circuiting `if`/`and`/`or`/`if_error`/`is_error` are left out: only their
+dispatch lemmas are missing, the proof is the same as for `display`): parsing + compiling such an expression in a
+root scope creates no cell, and evaluating the compiled expression on the cell machine, in an activation whose cells
+hold the values of the named environment under the compile-time name→cell map, gives for every fuel, configuration,
+tail flag and state exactly the named evaluator's outcome (value, error value, violation, stuck, out of fuel) and
+the same state (output lines, call counter). -/
+theorem compile_correct_partial (cfg : Core.Cfg) (e : Core.Expr) (hok : CellRun.exprOK e = true) (cf1 cf2 : Nat)
+    (cur : Scope) (rok : CellRun.RootOK cur) (p c : XE × Scope)
+    (hp : parseExpr cf1 [] cur (CellRun.ofExpr e) = .ok p) (hc : compileExpr cf2 [] p.2 p.1 = .ok c) :
+    c.2 = cur ∧
+    ∀ fuel (fr : Core.Frame) (rfr : CellRun.RFrame) tail st, fr.self = none → CellRun.FrRel fr.env cur.vars rfr →
+      CellRun.eval fuel cfg rfr c.1 tail st
+        = (CellRun.cr (Core.eval fuel cfg fr e tail st).1, (Core.eval fuel cfg fr e tail st).2) := by
+  obtain ⟨h1, -, h3⟩ := CellRun.compile_run_expr cfg e hok cf1 cf2 cur rok p c hp hc
+  exact ⟨h1, fun fuel fr rfr tail st hs hrel => (h3 fuel fr rfr tail st hs hrel).1⟩
 
 end XrayModel.C03
